@@ -46,7 +46,11 @@ theorem keyed_recv_one_fate (cfg : Cfg) (b : Nat) (evs : List Ev) (p q : Trace) 
         ∃ r c, x = .deliver r k v ∧ k = some c ∧ Out.sent r c ∈ outs p ∧ outcomes r (outs p) = 0) := by
   have hl := (kinv_run cfg b evs).good p _ o q h
   cases k with
-  | none => exact ⟨_, hl, Or.inl rfl⟩
+  | none =>
+    have hl' : o = [unmatched cfg none v] := hl
+    by_cases hd : cfg.dispatchUnmatched = true
+    · exact ⟨_, hl', Or.inl (by simp [unmatched, hd])⟩
+    · exact ⟨_, hl', Or.inr (Or.inl (by simp [unmatched, hd]))⟩
   | some c =>
     obtain ⟨h1, h2⟩ := hl
     by_cases hw : ∃ r, Out.sent r c ∈ outs p ∧ outcomes r (outs p) = 0
@@ -86,18 +90,58 @@ theorem mrp_unmatched_dispatched_once (b : Nat) (evs : List Ev) (p q : Trace) (k
     have := (hl.2 (fun r hs => hun r c rfl hs)).2 (Or.inl rfl)
     simpa [unmatched, Cfg.mrp] using this
 
-/-- **Companion: an event (no transaction id) reaches the listener exactly once; a response that
-    answers no outstanding request reaches nobody** (there is nothing to subscribe to). -/
+/-- **Companion: a response (`_t` = 3) that answers no outstanding request reaches nobody**
+    (there is nothing to subscribe to for responses). -/
 theorem companion_unmatched (b : Nat) (evs : List Ev) (p q : Trace) (k : Option Nat) (v : Nat)
     (o : List Out) (h : ktrace .companion b evs = p ++ (.recv k v, o) :: q)
     (hun : ∀ r c, k = some c → Out.sent r c ∈ outs p → outcomes r (outs p) ≠ 0) :
-    o = [if k = none then .dispatch k v else .drop k v] := by
+    o = [.drop k v] := by
   have hl := (kinv_run .companion b evs).good p _ o q h
   cases k with
-  | none => simpa [KLocal] using hl
+  | none => exact hl
   | some c =>
     have := (hl.2 (fun r hs => hun r c rfl hs)).2 (Or.inr rfl)
     simpa [unmatched, Cfg.companion] using this
+
+/-- **Companion: an event is not an answer.**  Whatever transaction-id field an event (`_t` = 1)
+    carries — none, unknown, or equal to the id of a request that is outstanding, completed or
+    abandoned — it reaches the listener exactly once and no caller (no hypothesis on `k`), and
+    no waiter is consumed: the request stays outstanding, so by
+    `keyed_response_reaches_its_request` its genuine response still reaches it. -/
+theorem companion_event_to_listener_only (b : Nat) (evs : List Ev) (p q : Trace) (k : Option Nat)
+    (v : Nat) (o : List Out) (h : ktrace .companion b evs = p ++ (.msg .event k v, o) :: q) :
+    o = [.dispatch k v] ∧ ∀ r, outcomes r (outs (p ++ [(.msg .event k v, o)])) = outcomes r (outs p) := by
+  have hl := (kinv_run .companion b evs).good p _ o q h
+  have ho : o = [.dispatch k v] := by simpa [KLocal, Cfg.companion] using hl
+  subst ho
+  exact ⟨rfl, fun r => by simp⟩
+
+/-- Companion: any other non-response frame (device-originated request, missing `_t`) is only
+    logged; it reaches no caller either. -/
+theorem companion_other_dropped (b : Nat) (evs : List Ev) (p q : Trace) (k : Option Nat)
+    (v : Nat) (o : List Out) (h : ktrace .companion b evs = p ++ (.msg .other k v, o) :: q) :
+    o = [.drop k v] := by
+  have hl := (kinv_run .companion b evs).good p _ o q h
+  simpa [KLocal, Cfg.companion] using hl
+
+/-- **MRP matches on the identifier alone**: a ProtocolMessage of any type that carries the
+    identifier of a waiting request is its answer (the response type is not fixed by the
+    protocol), one that carries none / an unknown / a completed one is dispatched once. -/
+theorem mrp_any_type_matched_by_identifier (b : Nat) (evs : List Ev) (p q : Trace) (kd : Kind)
+    (k : Option Nat) (v : Nat) (o : List Out) (h : ktrace .mrp b evs = p ++ (.msg kd k v, o) :: q) :
+    (∀ r c, k = some c → Out.sent r c ∈ outs p → outcomes r (outs p) = 0 → o = [.deliver r k v]) ∧
+    ((∀ r c, k = some c → Out.sent r c ∈ outs p → outcomes r (outs p) ≠ 0) → o = [.dispatch k v]) := by
+  have hl := (kinv_run .mrp b evs).good p _ o q h
+  have hl' : KRecvSpec .mrp p k v o := by simpa [KLocal, Cfg.mrp] using hl
+  cases k with
+  | none =>
+    refine ⟨fun r c hk => (by cases hk), fun _ => ?_⟩
+    exact hl'
+  | some c =>
+    refine ⟨fun r c' hk hs ho => ?_, fun hun => ?_⟩
+    · cases hk; exact hl'.1 r hs ho
+    · have := (hl'.2 (fun r hs => hun r c rfl hs)).2 (Or.inl rfl)
+      simpa [unmatched, Cfg.mrp] using this
 
 /-- **A caller whose response does not arrive in time gets a timeout error** (and nothing else
     happens); a timer of a request that is not waiting does nothing. -/
@@ -216,6 +260,16 @@ example : ktrace .mrp 7 [.send, .send, .send, .recv (some 9) 40, .recv none 41, 
 example : ktrace .companion 100 [.send, .burn, .send, .timeout 0, .recv (some 100) 5, .recv (some 102) 6]
     = [(.send, [.sent 0 100]), (.burn, []), (.send, [.sent 1 102]), (.timeout 0, [.timeoutErr 0]),
        (.recv (some 100) 5, [.drop (some 100) 5]), (.recv (some 102) 6, [.deliver 1 (some 102) 6])] := by
+  decide
+
+/-- Companion: events carrying the XID of an outstanding (100), an abandoned (101) and a
+    completed (100, again) request go to the listener; the genuine response still arrives -/
+example : ktrace .companion 100 [.send, .send, .msg .event (some 100) 5, .timeout 1,
+      .msg .event (some 101) 6, .recv (some 100) 7, .msg .event (some 100) 8, .msg .other (some 101) 9]
+    = [(.send, [.sent 0 100]), (.send, [.sent 1 101]), (.msg .event (some 100) 5, [.dispatch (some 100) 5]),
+       (.timeout 1, [.timeoutErr 1]), (.msg .event (some 101) 6, [.dispatch (some 101) 6]),
+       (.recv (some 100) 7, [.deliver 0 (some 100) 7]), (.msg .event (some 100) 8, [.dispatch (some 100) 8]),
+       (.msg .other (some 101) 9, [.drop (some 101) 9])] := by
   decide
 
 /-- hypotheses of `keyed_no_cross_after_timeout` are met by a concrete run -/
